@@ -349,7 +349,11 @@ def find_like(ex, s, sub, start, end, st, reverse=False):
             st.fact(z3.Or(r == -1, z3.And(r >= raw, r >= 0, r + m <= n, sl == sub)))
         ex.assumed.add("bytes.find(sub, start): -1 or a position >= start where sub occurs (uninterpreted FIND; the specification uses the same function)")
         return r
-    return z3.IndexOf(s, sub, a)
+    r = z3.IndexOf(s, sub, a)
+    if not getattr(st, "in_binder", 0):
+        # the integer content of the result, stated as a ground fact so that it survives the abstraction of strings (redundant for the native solver)
+        st.fact(z3.Or(r == -1, z3.And(r >= a, r >= 0, r + z3.Length(sub) <= n)))
+    return r
 
 
 def bytes_method(ex, recv, name, args, kwargs, st):
@@ -732,7 +736,17 @@ def sf_at(ex, node, st):
     """at(label, expr): expr evaluated in a labelled earlier state (loop heads are labelled L<k>)."""
     lab = node.args[0].id if isinstance(node.args[0], ast.Name) else node.args[0].value
     if lab not in st.labels:
-        raise Unsupported(f"no state labelled {lab}")
+        if lab not in ex.c.labels:
+            raise Unsupported(f"no state labelled {lab}")
+        # a statement label of the contract that this path never reached: the labelled state does not exist here, so nothing may be known about it -
+        # the expression is read in a state with an arbitrary heap (a clause that needs it on such a path cannot be proved)
+        from .exec import new_heap
+
+        view = st.clone()
+        view.heap = new_heap(f"unreached_{lab}")
+        view.store = dict(st.store)
+        view.store.update(getattr(st, "bound", {}))
+        return ex.eval(node.args[1], view)
     view = st.labels[lab].clone()
     view.path = st.path
     view.facts_seen = st.facts_seen
